@@ -182,6 +182,18 @@ static void l1_cb(const unsigned char *s, size_t n, int ntok, void *arg) {
 static mc_enum_t L1E;
 static void l1_shard(long shard, void *arg) { (void)arg; mc_enum_t e = L1E; mc_enum_shard(&e, shard); }
 
+/* L1spec: every special on its own - the reference has ONE class 'special', so the W-method takes one representative; a front end that gives two
+ * specials a meaning of their own (a source route "@hop,@hop:", a group "name:...;", a path "<...>", a comment "(...)") only shows on strings that
+ * hold two different ones in the right order.  All strings of <= 5 (thorough 6) tokens over {a . @ ( ) < > , ; : [ ] " \ SP !}, all call contexts. */
+static const mc_tok_t SIGX[] = { MC_TOK("a"), MC_TOK("."), MC_TOK("@"), MC_TOK("("), MC_TOK(")"), MC_TOK("<"), MC_TOK(">"), MC_TOK(","), MC_TOK(";"), MC_TOK(":"),
+    MC_TOK("["), MC_TOK("]"), MC_TOK("\""), MC_TOK("\\"), MC_TOK(" "), MC_TOK("!") };
+static void l1spec_cb(const unsigned char *s, size_t n, int ntok, void *arg) {
+    (void)ntok; (void)arg;
+    for (int mi = 0; mi < NMODES; mi++) { check_local("L1spec", MODES[mi], s, n); MC_ADD(C_L1, 1); }
+}
+static mc_enum_t L1X;
+static void l1spec_shard(long shard, void *arg) { (void)arg; mc_enum_t e = L1X; mc_enum_shard(&e, shard); }
+
 /* thorough only: one token deeper, NUL-terminated context only */
 static int C_L1D;
 static void l1deep_cb(const unsigned char *s, size_t n, int ntok, void *arg) {
@@ -564,6 +576,9 @@ int main(int argc, char **argv) {
         char nm[64]; snprintf(nm, sizeof nm, "L1:all strings of <= %d tokens over %d classes", n1, NSIGC);
         mc_parallel(nm, mc_enum_shards(&L1E), l1_shard, NULL);
     }
+    { memset(&L1X, 0, sizeof L1X); L1X.A = SIGX; L1X.nA = 16; L1X.N = mc_thorough ? 6 : 5; L1X.k = 2; L1X.fn = l1spec_cb;
+      char nm[96]; snprintf(nm, sizeof nm, "L1spec: all strings of <= %d tokens over {a . @ ( ) < > , ; : [ ] \" \\ SP !}, all contexts", L1X.N);
+      mc_parallel(nm, mc_enum_shards(&L1X), l1spec_shard, NULL); }
     { memset(&L1S, 0, sizeof L1S); L1S.A = SIGS; L1S.nA = (REF_OPTS & RO_RFC20) ? 7 : 6; L1S.N = (REF_OPTS & RO_RFC20) ? (mc_thorough ? 11 : 9) : (mc_thorough ? 12 : 10); L1S.k = 3; L1S.fn = l1small_cb;
       char nm[96]; snprintf(nm, sizeof nm, "L1small: all strings of <= %d tokens over the six structure classes, NUL-terminated context", L1S.N);
       mc_parallel(nm, mc_enum_shards(&L1S), l1small_shard, NULL); }
